@@ -163,7 +163,7 @@ def rsa_crt(has_p: bool, has_q: bool, has_dp: bool, has_dq: bool, has_qi: bool, 
     return True
 
 
-def import_export(kty_i: int, private: bool, has_kid: bool, kid: str, has_use: bool, has_alg: bool, extra: bool, with_params: bool) -> bool:
+def import_export(kty_i: int, private: bool, has_kid: bool, kid: str, has_use: bool, has_alg: bool, extra: bool, with_params: bool, pub_first: bool) -> bool:
     """
     pre: 0 <= kty_i <= 3 and len(kid) <= 2
     post: _
@@ -185,6 +185,11 @@ def import_export(kty_i: int, private: bool, has_kid: bool, kid: str, has_use: b
     want = dict(given)
     if params:
         want.update(params)
+    if pub_first:
+        # an earlier public export (directly, through a key set, or as a JWE epk) must not change what a later export returns
+        pub = key.as_dict(private=False)
+        if any(m in pub for m in PRIVATE[kty]) or pub is key.dict_value:
+            return False
     out = key.as_dict()
     if out != want or d != given:
         return False
@@ -645,6 +650,17 @@ def replay(func, call):
         out = ks.as_dict(private=False)
         if [x.get("kid") for x in out["keys"]] != [a.thumbprint(), b.thumbprint(), c.thumbprint()]:
             probs.append("KeySet.as_dict exported kids %r" % [x.get("kid") for x in out["keys"]])
+        # a key without kid appended after construction, followed by a key that carries its own kid
+        a2 = OctKey.import_key(dict(R.test_key("oct32")))
+        b2 = ECKey.import_key(dict(R.test_key("P-256")))
+        c2 = RSAKey.import_key(dict(R.public_jwk(R.test_key("RSA2048")), kid="own-kid"))
+        ks2 = KeySet([a2])
+        ks2.keys.append(b2)
+        ks2.keys.append(c2)
+        for priv in (None, False):
+            got = [x.get("kid") for x in ks2.as_dict(private=priv)["keys"]]
+            if got != [a2.thumbprint(), b2.thumbprint(), "own-kid"]:
+                probs.append("KeySet.as_dict(private=%r) with an appended kid-less key exported kids %r" % (priv, got))
         try:
             back = KeySet.import_key_set(out)
             if [k.thumbprint() for k in back.keys] != [a.thumbprint(), b.thumbprint(), c.thumbprint()]:
